@@ -684,6 +684,7 @@ impl<'a> Sim<'a> {
             let out = fork.process_tx(&ixs, &TxOpts::default());
             obs.fault("byzantine_twin");
             obs.probe(&format!("c19_twin:timelock.{ix_name}"));
+            obs.probe(&format!("c19_twin_out:{variant}:{}", out.class()));
             obs.outcome(if n == 0 { "twin_no_role" } else { "twin_every_other_role" }, ix_name, &out.class());
             obs.event(|| format!("TWIN {variant} of {ix_name} -> {}", out.class()));
             if !obs.require(
